@@ -529,6 +529,11 @@ func (ctx Ctx) newCoqCallTypeArgs(method coq.Expr, typeArgs []coq.Expr,
 	es []ast.Expr) coq.CallExpr {
 	var args []coq.Expr
 	for _, e := range es {
+		if tuple, ok := ctx.typeOf(e).(*types.Tuple); ok && tuple.Len() > 1 {
+			// f(g()) with a multi-valued g passes g's results as separate
+			// arguments; the call below would pass one tuple
+			ctx.unsupported(e, "multi-valued call as the arguments of a call (bind the results first)")
+		}
 		args = append(args, ctx.expr(e))
 	}
 	call := coq.NewCallExpr(method, args...)
